@@ -57,6 +57,8 @@ type GenOpts struct {
 	LongAP      bool
 	FixedFields bool  // every document carries every field name in play (identical field lists)
 	LongIDs     bool  // occasionally an _id at the byte-length boundaries of its varint length prefix (127..5000 bytes)
+	HugeIDs     bool  // with LongIDs: also ids of 16384 .. 65536 bytes
+	Geo         bool  // some field instances are geo-shape fields (their encoded shape is an extra doc value)
 	FieldSel    []int // when set: the field names in play are FieldNames[FieldSel[0..NFields)] instead of a prefix of FieldNames
 }
 
@@ -175,7 +177,10 @@ func GenBatch(r *Rng, o GenOpts) Batch {
 	for i := 0; i < o.NDocs; i++ {
 		id := fmt.Sprintf("%s%03d", o.IDBase, i)
 		if o.LongIDs && r.Chance(6) {
-			lens := []int{127, 128, 129, 255, 256, 257, 300, 1000, 5000, 16384, 32767, 32768, 65536} // incl. single writes of k*32 KiB
+			lens := []int{127, 128, 129, 255, 256, 257, 300, 1000, 5000}
+			if o.HugeIDs {
+				lens = append(lens, 16384, 32767, 32768, 65536) // single writes of k*32 KiB
+			}
 			if n := lens[r.Intn(len(lens))]; n > len(id) {
 				id += strings.Repeat("k", n-len(id))
 			}
@@ -243,6 +248,18 @@ func GenBatch(r *Rng, o GenOpts) Batch {
 			}
 		} else if o.FixedFields {
 			d.Fields = append(d.Fields, Field{Name: "_all", Typ: 'x', Len: 1, Toks: []Tok{genTok(r, o, Vocab[r.Intn(o.VocabN)], nil)}})
+		}
+		if o.Geo {
+			// at most one geo-shape instance per field name and document, only on instances with a term
+			used := map[string]bool{}
+			for j := range d.Fields {
+				f := &d.Fields[j]
+				if f.Name != "_id" && f.Name != "_all" && len(f.Toks) > 0 && len(f.Syn) == 0 && f.Vec == nil && !used[f.Name] && r.Chance(3) {
+					used[f.Name] = true
+					f.Shape = []byte{0x02, byte(1 + r.Intn(200)), byte(1 + r.Intn(200)), 0x7e}
+				}
+			}
+			// every later instance of that name must not carry a shape (the builder keeps the last one)
 		}
 		b = append(b, d)
 	}
